@@ -71,15 +71,34 @@ fn build_probe(t: &mut Tape, d7: Option<usize>) -> Option<Probe> {
         if check.captures != captures {
             return None;
         }
-        let body = vec![
-            Stmt::Node { id: ids.next(), var: VarRef::Plain { id: ids.next(), name: "n".into() } },
-            Stmt::AttrNode { id: ids.next(), node: Expr::Var { id: ids.next(), name: "n".into() }, attrs },
-        ];
+        // the captures are read at the top of the block or inside a nested block
+        let record = Stmt::AttrNode { id: ids.next(), node: Expr::Var { id: ids.next(), name: "n".into() }, attrs };
+        let record = match t.weighted(&[3, 1, 1, 1]) {
+            0 => record,
+            1 => Stmt::If { id: ids.next(), arms: vec![IfArm { id: ids.next(), conds: vec![Cond::Bool(ids.next(), Expr::True)], body: vec![record] }] },
+            2 => Stmt::If { id: ids.next(), arms: vec![IfArm { id: ids.next(), conds: vec![Cond::Bool(ids.next(), Expr::False)], body: vec![] }, IfArm { id: ids.next(), conds: vec![], body: vec![record] }] },
+            _ => Stmt::For { id: ids.next(), var_id: ids.next(), var: "once".into(), value: Expr::List(vec![Expr::Int(1, 0)]), body: vec![record] },
+        };
+        let mut body = vec![Stmt::Node { id: ids.next(), var: VarRef::Plain { id: ids.next(), name: "n".into() } }, record];
+        // a stanza without captures may have an empty block: its matches are still visited
+        if captures.is_empty() && t.chance(1, 2) {
+            body.clear();
+        }
         items.push(Item::Stanza(Stanza { id: ids.next(), query, captures, body, pool: 0 }));
     }
     let prog = GProg { items };
     let printed = if t.chance(1, 2) { print_canonical(&prog) } else { print_random(&prog, t) };
     Some(Probe { prog, printed })
+}
+
+/// The recording `attr` statement of a probe stanza, possibly inside one nested block.
+fn probe_attrs(s: &Stmt) -> Option<&Vec<Attr>> {
+    match s {
+        Stmt::AttrNode { attrs, .. } => Some(attrs),
+        Stmt::If { arms, .. } => arms.iter().flat_map(|a| a.body.iter()).find_map(probe_attrs),
+        Stmt::For { body, .. } => body.iter().find_map(probe_attrs),
+        _ => None,
+    }
 }
 
 type Seen = Vec<(usize, Vec<(String, Quant, Vec<usize>)>)>;
@@ -195,7 +214,10 @@ fn check(probe: &Probe, sources: &[String], id_prefix: &str) -> CaseOutcome {
             for m in &ms {
                 let mut node = MNode::default();
                 node.attrs.insert("stanza".into(), CVal::Str(format!("{}", si)));
-                if let Stmt::AttrNode { attrs, .. } = &st.body[1] {
+                if st.body.is_empty() {
+                    continue;
+                }
+                if let Some(attrs) = probe_attrs(&st.body[1]) {
                     for a in attrs.iter().skip(1) {
                         if let Some(Expr::Capture { name, .. }) = &a.value {
                             node.attrs.insert(a.name.clone(), m.caps.get(name).cloned().unwrap_or(CVal::Null));
